@@ -12,22 +12,22 @@
 (* Invariant RefAgrees holds the table and NeedsSep against the second     *)
 (* formalisation CssRef.tla (section 4.3 transcribed): the reference       *)
 (* tokeniser must split every generated text into exactly the items.       *)
-(* Invariant Tight is the converse for pairs: where NeedsSep asks for a    *)
-(* separator the juxtaposed text really is tokenised differently, so       *)
-(* "nothing where safe" leaves out no safe pair.                           *)
+(* Invariant Tight: for every pair of atoms, Merges (the character-level   *)
+(* relation from which the serialisation table NeedsSep is derived) is     *)
+(* exactly "the reference tokeniser splits the juxtaposed text otherwise". *)
 (***************************************************************************)
 EXTENDS CssTokens, TLC, Json, CSV, IOUtils
 
 CONSTANTS AtomChoice,   \* "all" | "reduced"
           MaxLen,       \* number of token atoms in a case
-          SepChoice,    \* "all": every separator choice; "none": juxtaposition only (cases stop where a separator is needed)
+          SepChoice,    \* "all": every separator choice; "basic": nothing, space, newline, comment; "none": juxtaposition only (cases stop where a separator is needed)
           EmitMin,      \* cases with fewer token atoms are not written
           WithFinal     \* TRUE: end-of-input atoms may close a case
 
 Ref == INSTANCE CssRef
 
 \* the atoms most sensitive to look-ahead, for exhaustive triples
-Reduced == {"id.one", "id.e", "id.u", "id.dash", "id.esc.char", "custom.plain", "func.plain", "at.plain", "hash.id", "str.dq", "url.unq",
+Reduced == {"id.one", "id.e", "id.e3", "id.u", "id.dash", "id.esc.char", "custom.plain", "func.plain", "at.plain", "hash.id", "str.dq", "url.unq",
             "num.int", "num.plus", "num.minus", "num.frac", "num.exp", "pct.int", "dim.e", "dim.plain", "ur.single", "ur.wild",
             "cdo", "cdc", "colon", "lparen", "match.dash", "column",
             "delim.dash", "delim.plus", "delim.dot", "delim.hash", "delim.at", "delim.slash", "delim.star", "delim.lt", "delim.bang",
@@ -47,19 +47,20 @@ RunStart(s, i) == IF i >= 1 /\ ~IsSep(s[i]) THEN RunStart(s, i - 1) ELSE i + 1
 RECURSIVE Concat(_, _, _)
 Concat(s, i, j) == IF i > j THEN <<>> ELSE Cls[s[i]] \o Concat(s, i + 1, j)
 \* x may follow s without a separator
-Safe(s, x) == \A p \in RunStart(s, Len(s))..Len(s) : ~NeedsSep(s[p], Concat(s, p + 1, Len(s)) \o Cls[x])
+Safe(s, x) == /\ Len(s) > 0 /\ ~IsSep(s[Len(s)]) => ~NeedsSep(s[Len(s)], x)
+              /\ \A p \in RunStart(s, Len(s))..Len(s) : ~Merges(s[p], Concat(s, p + 1, Len(s)) \o Cls[x])
 
 Closed(s) == Len(s) > 0 /\ s[Len(s)] \in FinalNames
 Extend(s, sep, x) ==
   LET t == IF sep = "none" THEN Append(s, x) ELSE s \o <<sep, x>> IN
-  IF x \in TokenNames /\ Kind[x] = "BadString" THEN {Append(t, w) : w \in SepsAfter(x)} ELSE {t}
+  IF x \in TokenNames /\ Kind[x] = "BadString" THEN {Append(t, w) : w \in SepsAfter(x, SepChoice # "all")} ELSE {t}
 
 Init == seq = <<>> /\ CSVWrite("%1$s", <<ToJson([meta |-> TRUE, atoms |-> Atoms, seps |-> SepNames, finals |-> FinalNames])>>, CaseFile)
 Next ==
   /\ ~Closed(seq) /\ NAtoms(seq) < MaxLen
   /\ \E x \in Atoms \cup (IF WithFinal THEN FinalNames ELSE {}) :
      \E sep \in (IF seq = <<>> \/ IsSep(seq[Len(seq)]) THEN {"none"}
-                 ELSE IF SepChoice = "all" THEN SepsAfter(seq[Len(seq)]) ELSE {"none"}) :
+                 ELSE IF SepChoice = "none" THEN {"none"} ELSE SepsAfter(seq[Len(seq)], SepChoice = "basic")) :
        /\ sep = "none" => Safe(seq, x)
        /\ \E t \in Extend(seq, sep, x) :
             /\ seq' = t
@@ -73,6 +74,7 @@ Spans(s, i, at) == IF i > Len(s) THEN <<>>
                    ELSE <<[k |-> Kind[s[i]], lo |-> at, hi |-> at + Len(Cls[s[i]])]>> \o Spans(s, i + 1, at + Len(Cls[s[i]]))
 Expected(s) == Spans(s, 1, 1)
 RefAgrees == Ref!Tokens(Text(seq)) = Expected(seq)
-Tight == (Len(seq) = 3 /\ seq[2] = "sep.cmt" /\ NeedsSep(seq[1], Cls[seq[3]]))
-            => Ref!Tokens(Cls[seq[1]] \o Cls[seq[3]]) # Expected(<<seq[1], seq[3]>>)
+\* for every pair of atoms (visited once, in the state where a comment separates them): Merges is exact
+Tight == (Len(seq) = 3 /\ seq[2] = "sep.cmt" /\ Kind[seq[1]] # "BadString")
+            => (Merges(seq[1], Cls[seq[3]]) <=> Ref!Tokens(Cls[seq[1]] \o Cls[seq[3]]) # Expected(<<seq[1], seq[3]>>))
 =============================================================================
